@@ -226,7 +226,7 @@ MEM = MemBudget(MEM_TOTAL_GB)
 # the deadline is not started and is reported as NOT decided (never as a success); one that is running at the deadline gets 5 more minutes.
 THOROUGH_DEADLINE = [None]
 def run_query(ctx, q, tier):
-    need = q.mem_gb if tier == 'quick' else max(q.mem_gb, 12)
+    need = q.mem_gb if (tier == 'quick' or 'quick' in q.tiers) else max(q.mem_gb, 12)     # the quick queries keep their own budget in the thorough tier (more of them run in parallel)
     got = MEM.acquire(need)
     try:
         if tier == 'thorough' and 'quick' not in q.tiers and THOROUGH_DEADLINE[0] is not None and time.time() > THOROUGH_DEADLINE[0]:
@@ -263,7 +263,7 @@ def run_query_(ctx, q, tier):
     if tier == 'thorough' and 'quick' not in q.tiers and THOROUGH_DEADLINE[0] is not None:
         timeout = int(max(60, min(timeout, THOROUGH_DEADLINE[0] - time.time() + 300)))
     outp = os.path.join(prep['dir'], 'cbmc.json')
-    r = run(cmd, timeout=timeout, mem_gb=q.mem_gb if tier == 'quick' else max(q.mem_gb, 12), stdout_path=outp)
+    r = run(cmd, timeout=timeout, mem_gb=q.mem_gb if (tier == 'quick' or 'quick' in q.tiers) else max(q.mem_gb, 12), stdout_path=outp)
     open(os.path.join(prep['dir'], 'cmd.txt'), 'w').write(' '.join(cmd) + '\n')
     res = {'q': q, 'prep': prep, 'wall': time.time() - t0, 'cbmc_wall': r['wall'], 'cmd': cmd}
     if r['timeout']:
